@@ -257,3 +257,305 @@ pub fn cancel(rng: &mut Rng) -> Case {
     }
     finish_case(g, "cancel")
 }
+
+// ---------------------------------------------------------------------------------------
+// C03 / C16
+
+/// Framing profile: conformant + inbound traffic whose bytes arrive in adversarial chunkings
+/// (1-byte reads, small random reads, held chunks released late, read gates). No Receive
+/// Maximum, so that the outcome does not depend on *when* an acknowledgement arrives.
+pub fn framing(rng: &mut Rng) -> Case {
+    let mut cfg = if rng.coin() { GenCfg::inbound(rng) } else { GenCfg::conformant(rng) };
+    cfg.receive_max = None;
+    cfg.read_style = *rng.pick(&[ReadStyle::Bytes1, ReadStyle::Small, ReadStyle::Mixed, ReadStyle::Small]);
+    cfg.hold_pct = *rng.pick(&[0, 40, 80]);
+    cfg.big_payloads = rng.chance(1, 2);
+    cfg.gates = rng.chance(1, 3);
+    cfg.scribble = rng.chance(1, 3);
+    cfg.writer_tweaks = false;
+    cfg.drop_streams = false;
+    cfg.drain = true;
+    cfg.always_settle = true;
+    let mut g = Gen::new(cfg, rng);
+    g.preamble();
+    for _ in 0..g.cfg.steps {
+        g.action();
+    }
+    g.drain();
+    let mut case = finish_case(g, "framing");
+    // the framing oracle runs scenarios in "settle after every step" form
+    case.scenario = settle_everywhere(&case.scenario);
+    let w = replay(&case.scenario);
+    case.gen_hash = Some(w.history_hash());
+    drop(w);
+    let _ = poster::verif::take_probes();
+    case
+}
+
+/// The same scenario with one read per packet (reference framing).
+pub fn whole_reads(sc: &Scenario) -> Scenario {
+    let mut out = sc.clone();
+    out.config.scribble = false;
+    for s in out.steps.iter_mut() {
+        match s {
+            Step::Broker { chunks, hold, .. } => {
+                *chunks = Chunks::Whole;
+                *hold = false;
+            }
+            Step::ReadGate => *s = Step::Deliver { n: 0 },
+            _ => {}
+        }
+    }
+    out
+}
+
+/// C16 base scenarios: any of the interactive profiles, wake-only.
+pub fn wake_base(rng: &mut Rng) -> Case {
+    let pick = rng.below(4);
+    let mut cfg = match pick {
+        0 => GenCfg::conformant(rng),
+        1 => GenCfg::inbound(rng),
+        _ => {
+            let mut c = if rng.coin() { GenCfg::inbound(rng) } else { GenCfg::conformant(rng) };
+            c.read_style = *rng.pick(&[ReadStyle::Bytes1, ReadStyle::Small, ReadStyle::Whole]);
+            c.hold_pct = *rng.pick(&[0, 50]);
+            c
+        }
+    };
+    cfg.writer_tweaks = rng.coin();
+    cfg.gates = false;
+    cfg.select = match rng.below(3) {
+        0 => SelectPolicy::PacketFirst,
+        1 => SelectPolicy::MessageFirst,
+        _ => SelectPolicy::Hashed(rng.next_u64()),
+    };
+    let mut g = Gen::new(cfg, rng);
+    g.preamble();
+    for _ in 0..g.cfg.steps {
+        g.action();
+    }
+    if g.rng.coin() {
+        g.drain();
+    } else {
+        g.flush();
+    }
+    let mut case = finish_case(g, "wake-base");
+    // spurious variant: extra polls of tasks whose waker has not fired, at random positions
+    let mut sp = case.scenario.clone();
+    let n = rng.urange(1, 12);
+    for _ in 0..n {
+        let pos = rng.urange(2, sp.steps.len());
+        let pick = rng.usize_below(8);
+        sp.steps.insert(pos, Step::Spurious { pick });
+    }
+    case.aux = Some(sp);
+    case
+}
+
+/// Inserts a run-to-quiescence after every step (the framing oracle's scheduling discipline).
+pub fn settle_everywhere(sc: &Scenario) -> Scenario {
+    let mut out = Scenario { config: sc.config.clone(), steps: Vec::with_capacity(sc.steps.len() * 2) };
+    for (i, s) in sc.steps.iter().enumerate() {
+        out.steps.push(s.clone());
+        let next_is_settle = matches!(sc.steps.get(i + 1), Some(Step::Settle { .. }));
+        if !matches!(s, Step::Settle { .. }) && !next_is_settle {
+            out.steps.push(Step::Settle { seed: i as u64 });
+        }
+    }
+    out
+}
+
+/// All compositions of `n` into positive parts, as chunk size lists (2^(n-1) of them).
+pub fn compositions(n: usize) -> Vec<Vec<usize>> {
+    let mut out = Vec::new();
+    if n == 0 {
+        return out;
+    }
+    for mask in 0u32..(1u32 << (n - 1)) {
+        let mut sizes = Vec::new();
+        let mut cur = 1usize;
+        for bit in 0..(n - 1) {
+            if mask & (1 << bit) != 0 {
+                sizes.push(cur);
+                cur = 1;
+            } else {
+                cur += 1;
+            }
+        }
+        sizes.push(cur);
+        out.push(sizes);
+    }
+    out
+}
+
+fn sys_case(prefix: &[Step], packets: &[Vec<u8>], sizes: Vec<usize>, pending_between: bool, tail: &[Step], config: &Config) -> Case {
+    let blob: Vec<u8> = packets.iter().flatten().copied().collect();
+    let mut steps = prefix.to_vec();
+    let n_chunks = Chunks::Sizes(sizes.clone()).cut(&blob).len();
+    steps.push(Step::Broker { pkt: BrokerPkt::Raw(blob), chunks: Chunks::Sizes(sizes), hold: pending_between });
+    if pending_between {
+        for k in 0..n_chunks {
+            steps.push(Step::Deliver { n: 1 });
+            steps.push(Step::Settle { seed: k as u64 });
+        }
+    }
+    steps.push(Step::Settle { seed: 7 });
+    steps.extend_from_slice(tail);
+    let mut reference = prefix.to_vec();
+    for p in packets {
+        reference.push(Step::Broker { pkt: BrokerPkt::Raw(p.clone()), chunks: Chunks::Whole, hold: false });
+        reference.push(Step::Settle { seed: 7 });
+    }
+    reference.extend_from_slice(tail);
+    Case {
+        scenario: Scenario { config: config.clone(), steps },
+        aux: Some(Scenario { config: config.clone(), steps: reference }),
+        profile: "framing/systematic",
+        gen_hash: None,
+        systematic: true,
+    }
+}
+
+/// Systematic framing sweeps: every composition of short streams, every cut position and
+/// every alignment against the 512/1024-byte buffer steps for long ones.
+pub fn systematic_framing(thorough: bool) -> Vec<Case> {
+    use crate::refcodec::{encode, encode_form, Ack, Connack, Packet, Publish, SubAck};
+    let mut cases = Vec::new();
+    let config = Config::default();
+    let connect = ConnectSpec { client_id: Some("sim".into()), ..Default::default() };
+    // ---- (1) connect(): CONNACK in every composition, then a ping round trip
+    let connacks: Vec<Vec<u8>> = vec![
+        encode(&Packet::Connack(Connack { session_present: false, reason: 0, props: Props::new() })),
+        encode(&Packet::Connack(Connack { session_present: true, reason: 0, props: Props::new().with(pid::RECEIVE_MAXIMUM, PropVal::U16(9)) })),
+        encode(&Packet::Connack(Connack {
+            session_present: false,
+            reason: 0,
+            props: Props::new().with(pid::RECEIVE_MAXIMUM, PropVal::U16(9)).with(pid::TOPIC_ALIAS_MAXIMUM, PropVal::U16(3)),
+        })),
+    ];
+    let ping_tail = vec![
+        Step::Op { id: 0, handle: 0, spec: OpSpec::Ping },
+        Step::Settle { seed: 1 },
+        Step::Broker { pkt: BrokerPkt::Pingresp, chunks: Chunks::Each(1), hold: false },
+        Step::Settle { seed: 2 },
+    ];
+    let prefix = vec![Step::Start { connect: connect.clone(), auths: vec![] }, Step::Settle { seed: 0 }];
+    for (i, ca) in connacks.iter().enumerate() {
+        if !thorough && i == 2 {
+            continue;
+        }
+        // the ping response rides in the same stream: bytes beyond the CONNACK are read by connect()
+        for sizes in compositions(ca.len()) {
+            for pending in [false, true] {
+                cases.push(sys_case(&prefix, &[ca.clone()], sizes.clone(), pending, &ping_tail, &config));
+            }
+        }
+    }
+    // ---- (2) run(): requests on the wire, then a blob of responses in every composition
+    let run_prefix = vec![
+        Step::Start { connect: connect.clone(), auths: vec![] },
+        Step::Settle { seed: 0 },
+        Step::Broker { pkt: BrokerPkt::Connack { session_present: false, reason: 0, props: Props::new() }, chunks: Chunks::Whole, hold: false },
+        Step::Settle { seed: 1 },
+        Step::Op { id: 0, handle: 0, spec: OpSpec::Subscribe(SubscribeSpec { filters: vec![("f/0/x".into(), SubOptSpec::default())], user: vec![] }) },
+        Step::Settle { seed: 2 },
+        Step::Broker { pkt: BrokerPkt::Ack { op: 0, kind: AckKind::Suback, reasons: vec![0], props: Props::new(), form: Form::Full }, chunks: Chunks::Whole, hold: false },
+        Step::Settle { seed: 3 },
+        Step::OpenStream(0),
+        Step::Op { id: 1, handle: 0, spec: OpSpec::Ping },
+        Step::Op { id: 2, handle: 0, spec: OpSpec::Publish(PublishSpec { qos: Some(1), topic: Some("t/2".into()), payload: Some(b"x".to_vec()), ..Default::default() }) },
+        Step::Settle { seed: 4 },
+    ];
+    // identifiers as the client assigned them in this prefix
+    let mut proto = crate::world::World::new(config.clone());
+    for s in &run_prefix {
+        proto.exec(s);
+    }
+    let sub_id = *proto.op_subid.get(&0).expect("prototype subscribe on the wire");
+    let pub_id = *proto.op_pid.get(&2).expect("prototype publish on the wire");
+    drop(proto);
+    let _ = poster::verif::take_probes();
+    let msg = |payload: Vec<u8>, qos: u8, id: u16| {
+        encode(&Packet::Publish(Publish {
+            dup: false,
+            qos,
+            retain: false,
+            topic: "a".into(),
+            pid: if qos > 0 { Some(id) } else { None },
+            props: Props::new().with(pid::SUBSCRIPTION_ID, PropVal::VarInt(sub_id)),
+            payload,
+        }))
+    };
+    let pingresp = vec![0xd0, 0x00];
+    let puback_short = encode_form(&Packet::Puback(Ack { pid: pub_id, reason: 0, props: Props::new() }), Form::Shortest);
+    let _ = SubAck { pid: 1, props: Props::new(), reasons: vec![] };
+    let short_streams: Vec<Vec<Vec<u8>>> = if thorough {
+        vec![
+            vec![pingresp.clone(), puback_short.clone(), msg(b"x".to_vec(), 0, 0)],
+            vec![msg(b"y".to_vec(), 1, 7), pingresp.clone(), puback_short.clone()],
+        ]
+    } else {
+        vec![vec![pingresp.clone(), msg(b"x".to_vec(), 0, 0)], vec![puback_short.clone(), pingresp.clone(), vec![]].into_iter().filter(|p| !p.is_empty()).collect()]
+    };
+    let run_tail = vec![Step::Settle { seed: 9 }];
+    for pk in &short_streams {
+        let n: usize = pk.iter().map(|p| p.len()).sum();
+        for sizes in compositions(n) {
+            cases.push(sys_case(&run_prefix, pk, sizes, false, &run_tail, &config));
+        }
+    }
+    // ---- (3) long streams: every cut position, alignments against 512 / 1024, fixed chunk sizes
+    let long: Vec<Vec<u8>> = vec![
+        msg(vec![b'a'; 497], 0, 0), // ends at 508
+        pingresp.clone(),           // 510
+        msg(vec![b'b'; 3], 1, 9),   // straddles 512
+        puback_short.clone(),
+        msg(vec![b'c'; 500], 2, 10), // to ~1045: crosses 1024
+        pingresp.clone(),
+        msg(vec![b'd'; 1100], 0, 0), // crosses 1536, 2048
+        msg(vec![b'e'; 2], 0, 0),
+    ];
+    let total: usize = long.iter().map(|p| p.len()).sum();
+    let stride = if thorough { 1 } else { 3 };
+    let mut cut = 1;
+    while cut < total {
+        cases.push(sys_case(&run_prefix, &long, vec![cut], false, &run_tail, &config));
+        cut += stride;
+    }
+    let firsts: Vec<usize> = (1..total).step_by(if thorough { 17 } else { 97 }).collect();
+    for k in (512..total).step_by(512) {
+        for d in [-2i64, -1, 0, 1, 2] {
+            let second = (k as i64 + d) as usize;
+            for &f in &firsts {
+                if f < second && second < total {
+                    cases.push(sys_case(&run_prefix, &long, vec![f, second - f], false, &run_tail, &config));
+                }
+            }
+        }
+    }
+    for size in [1usize, 2, 3, 5, 511, 512, 513, 1023, 1024, 1025] {
+        for pending in [false, true] {
+            if pending && size < 5 && !thorough {
+                continue;
+            }
+            let sizes = vec![size; total / size + 1];
+            cases.push(sys_case(&run_prefix, &long, sizes, pending, &run_tail, &config));
+        }
+    }
+    // ---- (4) remaining lengths of 3 (and, thorough, 4) bytes
+    let big = msg(vec![b'z'; 20_000], 0, 0);
+    let big_stream = vec![pingresp.clone(), big.clone(), pingresp.clone()];
+    for c in [1usize, 2, 3, 4, 5, 6, 7, 8, 511, 512, 513, 514, 1024, 4096, 16384, 20_000, 20_010, 20_011, 20_012] {
+        cases.push(sys_case(&run_prefix, &big_stream, vec![c], false, &run_tail, &config));
+    }
+    cases.push(sys_case(&run_prefix, &big_stream, vec![700; 40], true, &run_tail, &config));
+    if thorough {
+        let huge = msg(vec![b'q'; 2_100_000], 0, 0);
+        let hs = vec![huge, pingresp.clone()];
+        for c in [1usize, 3, 4, 5, 6, 512, 65_536, 2_099_999, 2_100_013] {
+            cases.push(sys_case(&run_prefix, &hs, vec![c], false, &run_tail, &config));
+        }
+        cases.push(sys_case(&run_prefix, &hs, vec![65_536; 40], false, &run_tail, &config));
+    }
+    cases
+}
